@@ -4,7 +4,7 @@
 
      {"e":"reset","scn":n,"cfg":{factor:class},"hOut":b,"gOut":b}
      {"e":"frame","scn":n,"k":k,"fr":{"kind","sub","f":{field:class}},
-      "obs":{"alive","stream","gstream","hOut","gOut","recv","eval","probe","throttled"}}
+      "obs":{"alive","stream","gstream","hOut","gOut","recv","eval","pub","probe","throttled","dec"}}
 
    Per line: the frame must be a frame of the class table (otherwise BAD: the
    machinery is broken), the three predicates are evaluated on what the node
@@ -44,7 +44,11 @@ Drifts(fr, obs) ==
 
 TFrame == /\ More /\ E.e = "frame"
           /\ IF IsFrame(E.fr)
-               THEN /\ \A v \in Viols(E.fr, E.obs) : PrintT(<<"VIOL", E.scn, E.k, v>>)
+               THEN \* the table's decode oracle against the harness's own (recover-protected) decode of the same bytes:
+                    \* a disagreement means the TABLE is wrong, never the node (machinery error, not a verdict)
+                    /\ (E.fr.kind = "Malformed" /\ E.obs.dec \in {"yes", "no"} /\ (E.obs.dec = "yes") # Decodes(E.fr.m))
+                          => PrintT(<<"BAD", E.scn, E.k, "oracle">>)
+                    /\ \A v \in Viols(E.fr, E.obs) : PrintT(<<"VIOL", E.scn, E.k, v>>)
                     /\ \A d \in Drifts(E.fr, E.obs) : PrintT(<<"DRIFT", E.scn, E.k, d>>)
                ELSE PrintT(<<"BAD", E.scn, E.k, "frame">>)
           \* re-synchronise from the observation so that the rest of the scenario is still checked
